@@ -158,6 +158,10 @@ func famPool(f string) []party.ID {
 		return []party.ID{"\u00e9", "\u00fc\u00df", "\U0001F600", "\u4e2d\u6587", "\u00e9a", "a\u00e9", "\u0416", "\u05d0\u05d1"}
 	case "rawbytes":
 		return []party.ID{"\xff", "\xfe\x01", "\x80\x00", "\xc3", "\xff\xff\x01", "\xf0\x9f", "\x01\xff", "\xed\xa0\x80"}
+	case "padding":
+		// identifiers that differ only in trailing NUL bytes: sets built from them coincide under any framing that
+		// pads or strips identifiers instead of length-prefixing them (their scalar images are all distinct)
+		return []party.ID{"a", "b", "a\x00", "b\x00", "a\x00\x00", "b\x00\x00", "a\x00\x00\x00", "b\x00\x00\x00"}
 	case "long":
 		var out []party.ID
 		for i := 0; i < 8; i++ {
